@@ -128,4 +128,36 @@ theorem dumpModel_ok_extract (cfg : DumpCfg) (crown : OutCrown) (obj : List (Str
         exact ⟨r, hr, h.symm⟩
       · simp at h
 
+/-! ### where the output crown builder attaches the sieves -/
+
+theorem lookup_goS (sieves : List (Path × Val)) (cur : Path) (k : String) : ∀ (m : List (String × Crown)),
+    (Crown.toOut.goS sieves cur m).lookup k = if m.any (fun kv => kv.1 == k) then sieves.lookup (cur ++ [.s k]) else none
+  | [] => by simp [Crown.toOut.goS]
+  | (k', c) :: r => by
+    have ih := lookup_goS sieves cur k r
+    unfold Crown.toOut.goS
+    by_cases hk : k' = k
+    · subst hk
+      cases hs : sieves.lookup (cur ++ [.s k']) with
+      | some d => simp [List.lookup]
+      | none => simp only [ih, hs]; simp
+    · have hb : (k == k') = false := by simpa using fun h => hk h.symm
+      have hb' : (k' == k) = false := by simpa using hk
+      cases hs : sieves.lookup (cur ++ [.s k']) with
+      | some d => simp only [List.lookup, hb, ih, List.any_cons, hb', Bool.false_or]
+      | none => simp only [ih, List.any_cons, hb', Bool.false_or]
+
+theorem mem_of_lookup {α β : Type} [BEq α] [LawfulBEq α] (a : α) (b : β) : ∀ (l : List (α × β)), l.lookup a = some b → (a, b) ∈ l
+  | [], h => by simp at h
+  | (a', b') :: r, h => by
+    simp only [List.lookup] at h
+    split at h
+    · rename_i heq
+      have := eq_of_beq heq
+      subst this
+      simp at h
+      subst h
+      simp
+    · exact List.mem_cons_of_mem _ (mem_of_lookup a b r h)
+
 end Adaptix.Layout
